@@ -44,7 +44,7 @@ THEOREMS += ["OdxVerif.Codec." + t for t in [
 # input-dependent size at any depth, MATCHING-REQUEST-PARAM, DYNAMIC-ENDMARKER-FIELD
 THEOREMS += ["OdxVerif.Codec." + t for t in [
     'C01_roundtrip_nested_consumes', 'C01_roundtrip_nested_whole', 'C01_roundtrip_nested2', 'C01_roundtrip_nested2_whole',
-    'C01_roundtrip_bytesize', 'Described2.ok', 'DescribedTop.ok', 'mcomps_roundtrip_msg_cur', 'roundtrip_msg_core',
+    'C01_roundtrip_bytesize', 'C01_roundtrip_nested2_of_described', 'Described.to2', 'Described2.ok', 'DescribedTop.ok', 'mcomps_roundtrip_msg_cur', 'roundtrip_msg_core',
     'dcomp_roundtrip_msg_cur', 'comps_roundtrip_msg_cur', 'comps_roundtrip_msg_pre_cur',
     'Good.sized', 'bsPad_frame', 'DComp.withByteSize_okM', 'DComp.withByteSize_ok', 'DComp.structBS_ok', 'DComp.structOM_okM',
     'DComp.structOM_ok',
